@@ -1,11 +1,11 @@
 SPECIFICATION Spec
 CONSTANTS
   NSeg = 2
-  NPart = 2
+  NPart = 1
   TokenCap = 0
-  Fmp4 = FALSE
+  Fmp4 = TRUE
   Variant = "ok"
-  MaxReq = 4
+  MaxReq = 5
 INVARIANTS AtMostOneValue NoGoroutineLeft NoCallbackAfterwards NeverNil ErrorSurfaced Emit
 PROPERTIES Terminates
 CHECK_DEADLOCK FALSE
